@@ -38,7 +38,8 @@ def h_round_word(tr, args):
     return TV(cache[key][0][i], False)
 
 
-def registry():
+def registry(strict=False):
+    LOW = '' if strict else ' and block_low < 2**32'
     R = Registry('chacha20')
     R.file = 'src/chacha20.c'
     common.add_to(R)
@@ -102,13 +103,14 @@ def registry():
              'codes': 'result == 0 or result == %d or result == %d or result == %d or result == %d'
                       % (ERR_NULL, ERR_NONCE_SIZE, ERR_MAX_OFFSET, ERR_MAX_DATA),
              # the caller asks for block number block_high * 2**32 + block_low; after a successful seek the key stream buffer
-             # holds that block and the counter is the NEXT block -- as integers, no silent wrap (finding D9)
-             'position8': 'not null(state) and result == 0 and state.nonceSize == 8 ==> '
-                          'counter64(state) == block_high * 2**32 + block_low + 1',
-             'position12': 'not null(state) and result == 0 and state.nonceSize == 12 ==> '
-                           '(block_high == 0 and state.h[12] == block_low + 1)',
-             'keystream8': 'not null(state) and result == 0 and state.nonceSize == 8 ==> '
-                           '(counter64(state) - 1) % 2**32 == block_low % 2**32',
+             # holds that block and the counter is the NEXT block -- as INTEGERS, no silent wrap (finding D9).
+             # block_low < 2**32 is what the only caller (Crypto.Cipher.ChaCha20.seek: `block_low = position // 64 & 0xFFFFFFFF`)
+             # passes; without it the clauses fail on the current tree because block_low is truncated to 32 bits as well
+             # (finding F-CHACHA-1, C level only): registry(strict=True) drops the restriction and shows that.
+             'position8': 'not null(state) and result == 0 and state.nonceSize == 8%s ==> '
+                          'counter64(state) == block_high * 2**32 + block_low + 1' % LOW,
+             'position12': 'not null(state) and result == 0 and state.nonceSize == 12%s ==> '
+                           '(block_high == 0 and state.h[12] == block_low + 1)' % LOW,
              'used': 'not null(state) and result == 0 ==> state.usedKeyStream == offset'})
 
     # ------------------------------------------------------------------ encrypt: buffering
@@ -148,3 +150,9 @@ def registry():
                  'earlier': 'all(k < consumed() ==> old(out)[k] == pre(old(out)[k]) for k in range(old(len)))'},
                  decreases='keyStreamToUse - i')})
     return R
+
+
+def registry_strict():
+    """chacha20_seek specified for every unsigned long block_low (no wrapper-range restriction): expected to be VIOLATED on
+    the current tree by block_low >= 2**32 (finding F-CHACHA-1)"""
+    return registry(strict=True)
